@@ -69,9 +69,12 @@ def build(W, mode):
             if ep is None:
                 continue
             sc = pr.sidecar(ep[0])
-            datamap[(cfg, sc)] = dm[s]
+            if cfg != W.names[0] and len(datamap) % 3 == 0:
+                continue                                   # this configuration lacks some sidecars the first one has
+            d = dict(dm[s], a=("%s-%s" % (cfg, dm[s]["a"])), cfg=cfg)     # the stored data differs between configurations
+            datamap[(cfg, sc)] = d
             with open(sc, "w") as f:
-                f.write(json.dumps(dm[s], indent=4))
+                f.write(json.dumps(d, indent=4))
     return datamap
 
 
